@@ -57,7 +57,7 @@ var famDet = NewFamily("C04.free", func(d detCase) (*Fail, bool) {
 
 func init() {
 	register("C04", "model_checking", func(c *Ctx) {
-		c.Rule("(i) controlled-scheduler DFS over the real encoding tasks: every interleaving of the scheduling points (atomics, WaitGroup, shared-stream ops, goroutine start/exit) for jobs 2, 3, 4 with no preemption bound (sleep-set reduction), jobs 4 also preemption-bounded plain DFS, and jobs 4-5 (6, 8 in thorough) over up to 4 batches with the state-caching DFS (a global state = atomic values + pending op and call path of every thread + order of the shared-stream operations + API results so far; a state seen before is not expanded again); the sink bytes of every execution are compared with the jobs=1 reference; states = distinct abstract protocol states (atomic values, per-thread pending op, WaitGroup count, stream holder), transitions = distinct (state, step); every execution is a real implementation run. (ii) free-running product jobs x hint x codec x length, 3 repetitions. (iii) all compositions of the input into Write calls over a size alphabet. Non-trivial = more than one task or more than one Write call")
+		c.Rule("(i) controlled-scheduler DFS over the real encoding tasks: every interleaving of the scheduling points (atomics, WaitGroup, shared-stream ops, goroutine start/exit) for jobs 2, 3, 4 with no preemption bound (sleep-set reduction), jobs 4 also preemption-bounded plain DFS, and jobs 4-5 (6, 8 in thorough) over up to 4 batches with the state-caching DFS (a global state = atomic values + pending op and call path of every thread + order of the shared-stream operations + API results so far; a state seen before is not expanded again); the sink bytes of every execution are compared with the jobs=1 reference; states = distinct abstract protocol states (atomic values, per-thread pending op, WaitGroup count, stream holder), transitions = distinct (state, step); every execution is a real implementation run. (ii) free-running product jobs x hint x codec x length, 3 repetitions; every single transform and the ZRLT chains x data shapes x short incompressible last block x job counts on both sides of the block count (slot-buffer history); checksum widths; skipBlocks. (iii) all compositions of the input into Write calls over a size alphabet. Non-trivial = more than one task or more than one Write call")
 		c.Assume("Go atomics are sequentially consistent, so SC interleavings of the scheduling points are the memory model of the protocol; unsynchronised accesses are the business of the separate -race pass (C18)")
 		var specs []e1Spec
 		add := func(s e1Spec) {
@@ -137,6 +137,30 @@ func init() {
 							for _, sh := range pick(c, []string{"text"}, []string{"text", "random", "utf8-3"}) {
 								emit(detCase{P: Params{cd[0], cd[1], B, j, 32, h, false, false}, Shape: sh, Len: n, Reps: 3})
 							}
+						}
+					}
+				}
+			}
+			// every transform alone: the block that lands in a task slot must not be encoded differently
+			// because of what the slot's buffers held (or how large they had grown) before; a short,
+			// incompressible last block after full blocks, job counts on both sides of the block count
+			for _, t := range allTransforms[1:] {
+				for _, sh := range []string{"random", "mixed", "text", "allruns"} {
+					for _, k := range []int{1, 3} {
+						for _, j := range []uint{2, 4} {
+							for _, bsz := range []uint{B, 16 * B} {
+								n := k*int(bsz) + int(bsz)/3
+								emit(detCase{P: Params{t, "NONE", bsz, j, 0, -1, false, false}, Shape: sh, Len: n, Reps: 1})
+							}
+						}
+					}
+				}
+			}
+			for _, ch := range []string{"BWT+RANK+ZRLT", "BWT+SRT+ZRLT", "RLT+ZRLT", "TEXT+ZRLT", "LZP+BWTS+MTFT+ZRLT"} {
+				for _, sh := range []string{"random", "mixed"} {
+					for _, k := range []int{1, 3} {
+						for _, j := range []uint{2, 4} {
+							emit(detCase{P: Params{ch, "ANS0", 16 * B, j, 32, -1, false, false}, Shape: sh, Len: k*16*B + 5000, Reps: 1})
 						}
 					}
 				}
